@@ -184,6 +184,15 @@ def report(prop, pmod, results, tier, seed, t0):
         if is_bounded:
             bounded.append('%s: BOUNDED STAND-IN (%s): %d obligation instances, %d hold as stated, not counted as proved'
                            % (key, r['bounded'], sum(o['paths'] for o in r['obligations']), sum(o['discharged'] for o in r['obligations'])))
+        # an obligation refuted only modulo uninterpreted functions + a native failing input of the same contract:
+        # the native input is the replayable counterexample
+        fz_fail = [fl for fl in (r.get('fuzz') or {}).get('failures', []) if not fl.get('pin')]
+        for o in r['obligations']:
+            if o.get('abstract') and fz_fail:
+                o['failed'].append(dict(fz_fail[0], confirmed=True, obligation=o['name'],
+                                        note='obligation refuted by the solver modulo uninterpreted functions; failing input found by native contract evaluation'))
+                o['abstract'] = 0
+                r['fuzz']['failures'] = [fl for fl in r['fuzz']['failures'] if fl.get('pin')]
         for o in r['obligations']:
             if not is_bounded:
                 n_obl += o['paths']
